@@ -1011,7 +1011,7 @@ func TestRouterStateMachine(t *testing.T) {
 		}
 		defer s.cleanup()
 
-		t.Repeat(map[string]func(*rapid.T){
+		actions := map[string]func(*rapid.T){
 			"":           s.check,
 			"send":       s.actSend,
 			"send2":      s.actSend,
@@ -1030,7 +1030,12 @@ func TestRouterStateMachine(t *testing.T) {
 			"retry":      s.actRetry,
 			"close":      s.actClose,
 			"postclose":  s.actPostClose,
-		})
+		}
+		// rapid draws the length of a Repeat geometrically (often 0-5 actions): repeat until the
+		// history is long enough to contain interleavings
+		for round := 0; round < 8 && (round == 0 || len(s.hist) < 24); round++ {
+			t.Repeat(actions)
+		}
 		s.finish()
 
 		nt := s.maxCids >= 2 && (s.reorder || s.dup || s.conflict || s.cancelled)
